@@ -72,7 +72,6 @@ FINDINGS = {}
 def classify(oc, data, cdc):
     """known crash classes, decided on the input and the crash kind"""
     if oc[0] == 'crash':
-        if 'OverflowError' in oc[1]: return 'F22'
         if 'MemoryError' in str(oc): return 'F22'
     return None
 
